@@ -1,0 +1,7 @@
+//go:build !verif
+
+package wallet
+
+import "github.com/elnosh/gonuts/wallet/storage"
+
+func verifWrapLoad(db storage.WalletDB) storage.WalletDB { return db }
